@@ -26,40 +26,6 @@ open Real Hand.Kernel
 
 namespace C16
 
-/-- leaves with an exact closed-form gradient -/
-def gradLeaf : K R → Bool
-  | .const _ => true
-  | .rbf _ => true
-  | .ess _ _ => true
-  | .rq _ _ => true
-  | _ => false
-
-theorem gradLeaf_covGradLeaf (k : K R) (h : GoodLeaves gradLeaf k) : GoodLeaves covGradLeaf k := by
-  induction k with
-  | add a b iha ihb => exact ⟨iha h.1, ihb h.2⟩
-  | mul a b iha ihb => exact ⟨iha h.1, ihb h.2⟩
-  | seard ls => simp [GoodLeaves, gradLeaf] at h
-  | matern nu l => simp [GoodLeaves, gradLeaf] at h
-  | white s => simp [GoodLeaves, gradLeaf] at h
-  | _ => rfl
-
-/-- `t ↦ S / (eᵗ)²` has derivative `-2 S / (eᵗ)²` -/
-theorem hasDerivAt_div_exp_sq (S t : ℝ) :
-    HasDerivAt (fun t : ℝ => S / (Real.exp t) ^ 2) (-2 * (S / (Real.exp t) ^ 2)) t := by
-  have h1 : HasDerivAt (fun t : ℝ => S * Real.exp (-2 * t)) (S * (Real.exp (-2 * t) * (-2))) t := by
-    have := ((hasDerivAt_id t).const_mul (-2 : ℝ)).exp
-    simpa using this.const_mul S
-  have hfun : (fun t : ℝ => S / (Real.exp t) ^ 2) = fun t => S * Real.exp (-2 * t) := by
-    funext u
-    rw [← Real.exp_nat_mul, div_eq_mul_inv, ← Real.exp_neg]
-    congr 2; push_cast; ring
-  rw [hfun]
-  refine h1.congr_deriv ?_
-  have : (Real.exp t) ^ 2 = Real.exp (2 * t) := by rw [← Real.exp_nat_mul]; push_cast; rfl
-  rw [this, div_eq_mul_inv, ← Real.exp_neg]
-  have : -(2 * t) = -2 * t := by ring
-  rw [this]; ring
-
 /-! ### leaves -/
 
 -- @site ConstantKernel::covariance_with_gradient
@@ -69,6 +35,8 @@ theorem const_grad (c : R) (hc : 0 < c.val) (x y : List R) :
   simp only [cov, covGradEntry, List.getD_cons_zero]
   have := Real.hasDerivAt_exp (Real.log c.val)
   rwa [Real.exp_log hc] at this
+
+example := const_grad (r 3) (by norm_num) [r 0] [r 1]
 
 -- @site RBFKernel::covariance_with_gradient
 theorem rbf_grad (l : R) (hl : 0 < l.val) (x y : List R) :
@@ -81,6 +49,8 @@ theorem rbf_grad (l : R) (hl : 0 < l.val) (x y : List R) :
   rw [Real.exp_log hl]
   have : -(1 / 2 : ℝ) * (sqSum x y / l.val ^ 2) = -(sqSum x y / l.val ^ 2) / 2 := by ring
   rw [this]; ring
+
+example := rbf_grad (r 3) (by norm_num) [r 0, r 2] [r 1, r 5]
 
 -- @site ExpSineSquaredKernel::covariance_with_gradient
 /-- parameter 0 of ESS: the length scale -/
@@ -100,6 +70,8 @@ theorem ess_grad_l (l p : R) (hl : 0 < l.val) (x y : List R) :
   simp only [Pi.neg_apply, Real.exp_log hl]
   have : -(2 * s2 / l.val ^ 2) = -2 * s2 / l.val ^ 2 := by ring
   rw [this]; ring
+
+example := ess_grad_l (r 3) (r 2) (by norm_num) [r 0, r 2] [r 1, r 5]
 
 -- @site ExpSineSquaredKernel::covariance_with_gradient
 /-- parameter 1 of ESS: the periodicity -/
@@ -131,16 +103,7 @@ theorem ess_grad_p (l p : R) (hp : 0 < p.val) (x y : List R) :
   field_simp
   ring
 
-/-- the RQ distance fold with the scale `√(2 s² a)` is `S / (2 a s²)` -/
-theorem rq_e2norm (s a : R) (ha : 0 ≤ a.val) (x y : List R) :
-    (e2norm x y (RealLike.sqrt ((2.0 : R) * s * s * a))).val = sqSum x y / (2 * a.val * s.val ^ 2) := by
-  have hD : 0 ≤ 2 * s.val * s.val * a.val := by
-    have : 0 ≤ s.val * s.val := mul_self_nonneg _
-    nlinarith [mul_nonneg this ha]
-  rw [e2norm_val]
-  simp only [R.sqrt_val, R.mul_val, lit2]
-  rw [Real.sq_sqrt hD]
-  congr 1; ring
+example := ess_grad_p (r 3) (r 2) (by norm_num) [r 0, r 2] [r 1, r 5]
 
 -- @site RationalQuadratic::covariance_with_gradient
 /-- parameter 0 of RQ: the scale -/
@@ -174,6 +137,8 @@ theorem rq_grad_s (s a : R) (hs : 0 < s.val) (ha : 0 < a.val) (x y : List R) :
   rw [hb'] at hbase ⊢
   rw [Real.rpow_sub_one hbase.ne']
   field_simp
+
+example := rq_grad_s (r 3) (r 2) (by norm_num) (by norm_num) [r 0, r 2] [r 1, r 5]
 
 -- @site RationalQuadratic::covariance_with_gradient
 /-- parameter 1 of RQ: the mixture (both the base and the exponent depend on it) -/
@@ -215,6 +180,8 @@ theorem rq_grad_a (s a : R) (hs : 0 < s.val) (ha : 0 < a.val) (x y : List R) :
   rw [Real.rpow_sub_one hbase.ne']
   field_simp
   ring
+
+example := rq_grad_a (r 3) (r 2) (by norm_num) (by norm_num) [r 0, r 2] [r 1, r 5]
 
 /-! ### trees -/
 
@@ -260,27 +227,66 @@ theorem parameters_getD (k : K R) (i : Nat) (hi : i < nParameters k) :
     · rw [List.getD_append_right _ _ _ _ (by rw [parameters_length]; omega), parameters_length]
       simp only [h, if_false]; exact ihb _ (by omega)
 
+example : ((parameters (.add (.rbf (r 2)) (.ess (r 1) (r 3)))).getD 2 (r 0)).val
+    = Real.log (getParam (.add (.rbf (r 2)) (.ess (r 1) (r 3))) 2).val :=
+  parameters_getD _ 2 (by simp [nParameters])
+
+-- @site Kernel::covariance_with_gradient
+/-- a leaf statement proved below the diagonal extends to the mirrored upper triangle (symmetry of `covariance`) and to
+    the diagonal (`covariance(x, x) = 1` whatever the parameters, slice entry `0`) -/
+theorem leaf_all_pos (mk : R → K R) (k : K R) (i : Nat) (t0 : ℝ)
+    (hlow : ∀ u v, HasDerivAt (fun t : ℝ => (cov (mk ⟨Real.exp t⟩) u v).val)
+      ((covGradEntry k .lower u v).2.getD i (r 0)).val t0)
+    (hup : ∀ u v, covGradEntry k .upper u v = covGradEntry k .lower v u)
+    (hdiag1 : ∀ (w : R) u, (cov (mk w) u u).val = 1)
+    (hdiag2 : ∀ u, ((covGradEntry k .diag u u).2.getD i (r 0)).val = 0)
+    (pos : Pos) (x y : List R) (hd : pos = .diag → y = x) :
+    HasDerivAt (fun t : ℝ => (cov (mk ⟨Real.exp t⟩) x y).val) ((covGradEntry k pos x y).2.getD i (r 0)).val t0 := by
+  cases pos with
+  | lower => exact hlow x y
+  | upper =>
+    have hf : (fun t : ℝ => (cov (mk ⟨Real.exp t⟩) x y).val) = fun t => (cov (mk ⟨Real.exp t⟩) y x).val :=
+      funext fun t => cov_symm _ _ _
+    rw [hf, hup]; exact hlow y x
+  | diag =>
+    rw [hd rfl]
+    have hf : (fun t : ℝ => (cov (mk ⟨Real.exp t⟩) x x).val) = fun _ => (1 : ℝ) := funext fun t => hdiag1 _ _
+    rw [hf, hdiag2]; exact hasDerivAt_const _ _
+
 -- @site Kernel::covariance_with_gradient
 /-- **the gradient is the derivative.**  For every tree over Constant / RBF / ExpSineSquared / RationalQuadratic leaves
-    with positive parameters, every parameter index `i` and every pair of points: slice `i` of the gradient returned by
-    `covariance_with_gradient` is the derivative of the `covariance` entry with respect to the `i`-th log-parameter
-    (all other parameters fixed), at the current value `ln θᵢ = parameters()[i]`.
+    with positive parameters, every parameter index `i`, every position of the matrix (below, on — then `y = x` —, above
+    the diagonal) and every pair of points: entry of slice `i` of the gradient returned by `covariance_with_gradient`
+    is the derivative of the `covariance` entry with respect to the `i`-th log-parameter (all other parameters fixed),
+    at the current value `ln θᵢ = parameters()[i]` (`parameters_getD`).
     Leaves: the six lemmas above; `AddKernel`: sum rule, `ProductKernel`: product rule, slices concatenated in order. -/
 theorem grad_hasDerivAt (k : K R) (hk : GoodLeaves gradLeaf k) (hv : Valid k) (i : Nat) (hi : i < nParameters k)
-    (x y : List R) :
+    (pos : Pos) (x y : List R) (hd : pos = .diag → y = x) :
     HasDerivAt (fun t : ℝ => (cov (setParam k i ⟨Real.exp t⟩) x y).val)
-      ((covGradEntry k .lower x y).2.getD i (r 0)).val (Real.log (getParam k i).val) := by
+      ((covGradEntry k pos x y).2.getD i (r 0)).val (Real.log (getParam k i).val) := by
+  have one : ∀ (k' : K R) (u : List R), GoodLeaves diagValueLeaf k' → (diagEntry k' u).val = 1 →
+      (cov k' u u).val = 1 := fun k' u h1 h2 => by rw [← diag_eq k' h1 u]; exact h2
   induction k generalizing i with
   | const c => match i, hi with
-    | 0, _ => exact const_grad c hv x y
+    | 0, _ => cases pos <;> exact const_grad c hv x y
   | rbf l => match i, hi with
-    | 0, _ => exact rbf_grad l hv x y
+    | 0, _ =>
+      exact leaf_all_pos (fun w => .rbf w) (.rbf l) 0 _ (rbf_grad l hv) (fun _ _ => rfl)
+        (fun w u => one (.rbf w) u rfl lit1) (fun _ => lit0) pos x y hd
   | ess l p => match i, hi with
-    | 0, _ => exact ess_grad_l l p hv.1 x y
-    | 1, _ => exact ess_grad_p l p hv.2 x y
+    | 0, _ =>
+      exact leaf_all_pos (fun w => .ess w p) (.ess l p) 0 _ (ess_grad_l l p hv.1) (fun _ _ => rfl)
+        (fun w u => one (.ess w p) u rfl lit1) (fun _ => lit0) pos x y hd
+    | 1, _ =>
+      exact leaf_all_pos (fun w => .ess l w) (.ess l p) 1 _ (ess_grad_p l p hv.2) (fun _ _ => rfl)
+        (fun w u => one (.ess l w) u rfl lit1) (fun _ => lit0) pos x y hd
   | rq s a => match i, hi with
-    | 0, _ => exact rq_grad_s s a hv.1 hv.2 x y
-    | 1, _ => exact rq_grad_a s a hv.1 hv.2 x y
+    | 0, _ =>
+      exact leaf_all_pos (fun w => .rq w a) (.rq s a) 0 _ (rq_grad_s s a hv.1 hv.2) (fun _ _ => rfl)
+        (fun w u => one (.rq w a) u rfl lit1) (fun _ => lit0) pos x y hd
+    | 1, _ =>
+      exact leaf_all_pos (fun w => .rq s w) (.rq s a) 1 _ (rq_grad_a s a hv.1 hv.2) (fun _ _ => rfl)
+        (fun w u => one (.rq s w) u rfl lit1) (fun _ => lit0) pos x y hd
   | seard ls => simp [GoodLeaves, gradLeaf] at hk
   | matern nu l => simp [GoodLeaves, gradLeaf] at hk
   | white s => simp [GoodLeaves, gradLeaf] at hk
@@ -301,8 +307,8 @@ theorem grad_hasDerivAt (k : K R) (hk : GoodLeaves gradLeaf k) (hv : Valid k) (i
     simp only [nParameters] at hi
     simp only [GoodLeaves] at hk
     simp only [setParam, getParam, covGradEntry]
-    have hca := covGrad_cov_eq a (gradLeaf_covGradLeaf a hk.1) hv.1 .lower x y (by simp)
-    have hcb := covGrad_cov_eq b (gradLeaf_covGradLeaf b hk.2) hv.2 .lower x y (by simp)
+    have hca := covGrad_cov_eq a (gradLeaf_covGradLeaf a hk.1) hv.1 pos x y hd
+    have hcb := covGrad_cov_eq b (gradLeaf_covGradLeaf b hk.2) hv.2 pos x y hd
     by_cases h : i < nParameters a
     · simp only [h, if_true, cov, R.mul_val]
       rw [List.getD_append _ _ _ _ (by rw [List.length_map, covGrad_len]; exact h)]
@@ -323,10 +329,34 @@ theorem grad_hasDerivAt (k : K R) (hk : GoodLeaves gradLeaf k) (hv : Valid k) (i
 example : HasDerivAt
     (fun t : ℝ => (cov (setParam (.mul (.const (r 3)) (.add (.rbf (r 2)) (.rq (r 1) (r 5)))) 3 ⟨Real.exp t⟩)
       [r 1, r 2] [r 0, r 4]).val)
-    ((covGradEntry (.mul (.const (r 3)) (.add (.rbf (r 2)) (.rq (r 1) (r 5)))) .lower [r 1, r 2] [r 0, r 4]).2.getD 3
+    ((covGradEntry (.mul (.const (r 3)) (.add (.rbf (r 2)) (.rq (r 1) (r 5)))) .upper [r 1, r 2] [r 0, r 4]).2.getD 3
       (r 0)).val
     (Real.log (getParam (.mul (.const (r 3)) (.add (.rbf (r 2)) (.rq (r 1) (r 5)))) 3).val) :=
-  grad_hasDerivAt _ (by simp [GoodLeaves, gradLeaf]) (by simp [Valid]) 3 (by simp [nParameters]) _ _
+  grad_hasDerivAt _ (by simp [GoodLeaves, gradLeaf]) (by simp [Valid]) 3 (by simp [nParameters]) .upper _ _ (by simp)
+
+-- @site Kernel::covariance_with_gradient
+/-- matrix level: entry `(i, j)` of slice `p` of the gradient returned by `covariance_with_gradient(X)` is the derivative
+    of entry `(i, j)` of `covariance(X, X)` with respect to the `p`-th log-parameter — every tree over
+    Constant / RBF / ExpSineSquared / RationalQuadratic leaves, every point set, every `p, i, j` -/
+theorem covWithGrad_grad_hasDerivAt (k : K R) (hk : GoodLeaves gradLeaf k) (hv : Valid k) (X : List (List R))
+    (C : List (List R)) (G : List (List (List R))) (h : covWithGrad k X = .ok (C, G))
+    (p i j : Nat) (hp : p < nParameters k) (hi : i < X.length) (hj : j < X.length) :
+    HasDerivAt (fun t : ℝ => (cov (setParam k p ⟨Real.exp t⟩) X[i] X[j]).val)
+      (((G.getD p []).getD i []).getD j (r 0)).val (Real.log (getParam k p).val) := by
+  rw [(covWithGrad_entry k X C G h p i j hp hi hj).1]
+  apply grad_hasDerivAt k hk hv p hp
+  intro hpos
+  have := ofIdx_diag i j hpos
+  subst this
+  rfl
+
+example (C : List (List R)) (G : List (List (List R)))
+    (h : covWithGrad (.mul (.const (r 2)) (.rq (r 1) (r 3))) [[r 0], [r 1]] = .ok (C, G)) :
+    HasDerivAt (fun t : ℝ => (cov (setParam (.mul (.const (r 2)) (.rq (r 1) (r 3))) 2 ⟨Real.exp t⟩) [r 0] [r 1]).val)
+      (((G.getD 2 []).getD 0 []).getD 1 (r 0)).val
+      (Real.log (getParam (.mul (.const (r 2)) (.rq (r 1) (r 3))) 2).val) :=
+  covWithGrad_grad_hasDerivAt _ (by simp [GoodLeaves, gradLeaf]) (by simp [Valid]) _ C G h 2 0 1
+    (by simp [nParameters]) (by simp) (by simp)
 
 /-! ### leaves whose gradient is NOT the derivative -/
 
@@ -387,7 +417,9 @@ end C16
 #print axioms C16.rq_grad_s
 #print axioms C16.rq_grad_a
 #print axioms C16.parameters_getD
+#print axioms C16.leaf_all_pos
 #print axioms C16.grad_hasDerivAt
+#print axioms C16.covWithGrad_grad_hasDerivAt
 #print axioms C16.white_grad_counterexample
 #print axioms C16.seard_grad_counterexample
 #print axioms C16.matern_grad_partial
